@@ -6,8 +6,46 @@ import vf
 
 IMPORTS = ["From ZV Require Import Lib.Base Model.HybridRe."]
 ENV = "ZOEKT_RE2_THRESHOLD_BYTES"
-SEARCH_SETTINGS = ["-1", "0", "1", "64", "4096"]
-DISPATCH_SETTINGS = ["-1", "0", "1", "64", "4096", "abc", None]
+# fixed settings; the settings ABOVE every document (go-re2 compiled but never selected) are derived from the generated
+# corpus at run time: largest document + 1 and 2^30 (see search_settings)
+BASE_SEARCH_SETTINGS = ["-1", "0", "1", "64", "4096"]
+# 100001 = the largest generated input of the dispatch harness + 1; 2^63-1 / 2^63 = largest int64 / out of range
+# (unparsable => disabled); "", " 7", "abc" unparsable; "+7" = 7; "-7" negative => disabled; None = unset
+DISPATCH_SETTINGS = ["-1", "0", "1", "64", "4096", "100001", str(2 ** 30), str(2 ** 63 - 1), str(2 ** 63), "abc", "", " 7", "+7", "-7", None]
+GEN = os.path.join(vf.COQ, "Generated", "HybridRe2.v")
+
+
+def regen(ctx):
+    """coq/Generated/HybridRe2.v (conditions of Compile/useRE2, Regexp.FindAllIndex path by path) from the
+    internal/hybridre2 of the tree under test. Returns (note, description of the leaves, broken message or None)."""
+    js = os.path.join(ctx.tmp, "hybridre2-tree.json")
+    rc, out = vf.sh(["go", "run", os.path.join(vf.ROOT, "translator", "hybridre2", "main.go"), vf.REPO, "-json", js],
+                    cwd=vf.REPO, env=vf.go_env(), timeout=600)
+    if rc != 0 or "Definition find_all_index_tree" not in out or "(* GENERATED" not in out:
+        return ("NOT regenerated", None,
+                "translator/hybridre2 cannot read the dispatch of internal/hybridre2 (Compile / useRE2 / Regexp.FindAllIndex have a shape it "
+                "does not know), so the theorems of Props/C28.v are not about this source: " + out.strip()[-600:])
+    start = out.index("(* GENERATED")
+    with vf._Lock("coq"):
+        changed = vf.write_if_changed(GEN, out[start:])
+    desc = None
+    try:
+        desc = json.load(open(js))
+    except Exception:
+        pass
+    return "regenerated from %s/internal/hybridre2%s" % (vf.REPO, " (content changed)" if changed else ""), desc, None
+
+
+def explain_tree(desc):
+    """human-readable reasons why the generated dispatch tree fails the checker (for the broken message)"""
+    out = []
+    for lf in (desc or {}).get("leaves", []):
+        path = " && ".join(lf.get("path") or ["(always)"])
+        if lf.get("other"):
+            out.append("path [%s] %s" % (path, lf["other"]))
+        elif lf.get("input") != "ArgParam" or lf.get("limit") != "ArgParam":
+            out.append("path [%s] calls the %s engine on something else than FindAllIndex's own arguments: %s" % (path, lf.get("engine"), "; ".join(lf.get("why", []))))
+    return out
 
 
 def build_test_binary(ctx, pkg_dir, files, name):
@@ -44,9 +82,26 @@ def run_test_binary(ctx, binary, pkg_dir, run, n, env, out_name, timeout):
 
 
 def run(ctx):
+    try:
+        return _run(ctx)
+    finally:
+        # a run against a scratch tree (VERIF_REPO=..., mutants / seeded changes) must not leave the scratch tree's dispatch
+        # in coq/Generated: put /repo's back
+        if os.path.realpath(vf.REPO) != "/repo":
+            rc, out = vf.sh(["go", "run", os.path.join(vf.ROOT, "translator", "hybridre2", "main.go"), "/repo"],
+                            cwd="/repo", env=vf.go_env(), timeout=600)
+            if rc == 0 and "(* GENERATED" in out:
+                with vf._Lock("coq"):
+                    vf.write_if_changed(GEN, out[out.index("(* GENERATED"):])
+
+
+def _run(ctx):
     pid = ctx.pid
     os.environ.pop(ENV, None)
     broken, failures = [], []
+    gen_note, tree_desc, gen_broken = regen(ctx)
+    if gen_broken:
+        broken.append(gen_broken)
     proofs = vf.coq_props(ctx, pid, extra_targets=["Model/HybridRe.vo"])
     aok, aout = vf.audit()
     if not aok:
@@ -60,7 +115,10 @@ def run(ctx):
             proofs["ok"] = False
             broken.append("coqchk rejects Props/%s.vo: %s" % (pid, cout[-800:]))
     if not proofs["ok"]:
-        broken.append("proof obligations of Props/%s.v do not check: %s" % (pid, (proofs.get("broken_files") or proofs.get("nonstd_axioms") or proofs["log"][-800:])))
+        why = explain_tree(tree_desc)
+        broken.append("proof obligations of Props/%s.v do not check%s: %s" % (
+            pid, (" — the dispatch read from the source (Generated/HybridRe2.v) is not the specified one: " + " | ".join(why)) if why else "",
+            (proofs.get("broken_files") or proofs.get("nonstd_axioms") or proofs["log"][-800:])))
 
     # ---- correspondence: dispatch decisions of the real package under each setting vs Model/HybridRe.v
     dcases = []
@@ -95,21 +153,50 @@ def run(ctx):
     sbin, slog = build_test_binary(ctx, "index", ["index/zz_verif_c28_test.go"], "c28s.test")
     if not sbin:
         broken.append("building the search harness failed: " + slog[-1200:])
-    for st in (SEARCH_SETTINGS if sbin else []):
-        hr = run_test_binary(ctx, sbin, "index", "TestVerifC28$", nq, {ENV: st}, "search_%s.jsonl" % st,
-                             1500 if ctx.tier == "quick" else 3400)
+    # settings: the fixed ones, the replay's own, and — derived from the corpus the harness generated (emitted by the first
+    # process) — values above EVERY document: go-re2 is compiled but the grafana engine is selected for all of them
+    settings = list(BASE_SEARCH_SETTINGS)
+    if ctx.replay:
+        try:
+            rp = json.load(open(ctx.replay)).get("replay") or {}
+            for st in (rp.get("results_by_setting") or {}):
+                if st not in settings:
+                    settings.append(st)
+        except Exception:
+            pass
+    derived = False
+    i = 0
+    while sbin and i < len(settings):
+        st = settings[i]
+        i += 1
+        hr = run_test_binary(ctx, sbin, "index", "TestVerifC28$", nq, {ENV: st, "VERIF_C28_CLASSIFY": "1" if st == "-1" else "0"},
+                             "search_%s.jsonl" % st, 1500 if ctx.tier == "quick" else 3400)
         if hr["rc"] != 0:
             broken.append("harness TestVerifC28 failed under %s=%s (rc=%d): %s" % (ENV, st, hr["rc"], hr["log"][-1200:]))
         got = 0
         for r in hr["records"]:
             if r.get("kind") == "c28res":
                 per.setdefault(r["id"], {})[st] = r["result"]
-                meta[r["id"]] = r
+                if r.get("classified") or r["id"] not in meta:
+                    meta[r["id"]] = r
                 got += 1
             elif r.get("kind") == "c28corpus":
                 corpora[r["corpus"]] = r["docs"]
         if got == 0 and hr["rc"] == 0:
             broken.append("search harness produced no results under %s=%s" % (ENV, st))
+        if not derived and corpora:
+            derived = True
+            sizes = sorted(set(d["bytes"] for docs in corpora.values() for d in docs))
+            for v in [str(sizes[-1] + 1), str(2 ** 30)]:
+                if v not in settings:
+                    settings.append(v)
+            if ctx.tier == "thorough":
+                # additionally every boundary: a threshold equal to a document's size (selected exactly) and one above it
+                mids = [x for x in sizes if x > 1]
+                for v in [str(mids[len(mids) // 2]), str(mids[len(mids) // 2] + 1), str(sizes[-1])]:
+                    if v not in settings:
+                        settings.append(v)
+    SEARCH_SETTINGS = settings
     compared = differing = 0
     for qid, res in per.items():
         if len(res) != len(SEARCH_SETTINGS):
@@ -154,13 +241,20 @@ def run(ctx):
     cov = dict(
         evaluations=sum(len(v) for v in per.values()) + len(dcases),
         distinct_nontrivial=len(nontrivial),
-        rule="6 corpora x 7 valid-UTF-8 documents (0 .. ~8000 bytes, sizes straddling the thresholds 1/64/4096; ASCII identifiers, "
-             "case variants, k/K/Kelvin, s/long s, ß/ẞ, Greek incl. final sigma, CJK, emoji, blank lines) x generated regexps of the query "
+        rule="6 corpora x 9 valid-UTF-8 documents (0 .. ~8000 bytes, sizes straddling the thresholds 1/64/4096; ASCII identifiers, "
+             "case variants, k/K/Kelvin, s/long s, ß/ẞ, Greek incl. final sigma, CJK, emoji, blank lines; in 2 of 3 documents 12-60 % of the "
+             "words are special valid code points — U+FFFD, BOM, U+2028/2029, noncharacters U+FFFE/U+FFFF, U+10FFFF, U+D7FF/U+E000, "
+             "control characters, combining marks, ZWSP/NBSP, CR — alone and glued before/after/inside words) x generated regexps of the query "
              "syntax (literals, classes incl. negated/Perl/POSIX/Unicode, anchors, \\b/\\B, empty-matching forms, lazy and counted repeats, flag "
              "groups, alternations) with random case sensitivity; every query is searched with indexData.Search in one process per "
-             "setting in {-1,0,1,64,4096}; canonical result = sorted files with sorted byte ranges. distinct by (corpus, query); "
+             "setting in {-1,0,1,64,4096, largest document + 1, 2^30} (the last two derived from the generated corpus: go-re2 compiled but "
+             "never selected); canonical result = sorted files with sorted byte ranges. distinct by (corpus, query); "
              "non-trivial = the query matches something. Plus the dispatch decisions (compiled?, used?) for 50 input lengths under 7 "
-             "settings (incl. unparsable and unset) compared with the model.",
+             "settings (incl. above every input, int64 limits, unparsable and unset) compared with the model and with the conditions "
+             "generated from the source; per length 4 (pattern, limit) pairs on generated valid UTF-8 with the same special code points: "
+             "FindAllIndex must equal the selected engine's result on the same bytes and limit.",
+        generated_dispatch=gen_note,
+        generated_dispatch_tree=(tree_desc or {}).get("tree"),
         samples=[dict(pattern=m["pattern"], case_sensitive=m["case_sensitive"], result=m["result"][:200]) for m in list(meta.values())[:3]] or ["(none)"],
         queries_compared_across_settings=compared,
         queries_with_setting_dependent_results=differing,
@@ -177,6 +271,9 @@ def run(ctx):
             "C28_threshold_irrelevant_partial assumes (Section hypotheses grafana_spec, re2_spec) that both implement a common spec_find_all on valid UTF-8; "
             "engine agreement is only checked on the generated (corpus, regexp) pairs",
             "harness harness/overlay/index/zz_verif_c28_test.go (generator, canonicalisation) and harness/overlay/internal/hybridre2/zz_verif_c28d_test.go",
+            "translator/hybridre2 (go/ast: reads const disabled, the guard of Compile's go-re2 branch, the body of useRE2 and every path of "
+            "Regexp.FindAllIndex into coq/Generated/HybridRe2.v on every run; conservative: anything it does not recognise becomes an opaque "
+            "condition / a derived argument / a non-engine leaf, which the checker tree_ok rejects unless harmless)",
             "one process per setting: threshold is read once per process (sync.OnceValue)",
         ],
     )
